@@ -113,7 +113,10 @@ def body(run):
         scale = rng.choice([1.0, 3.0, 400.0, -1.0])       # push values over integer ranges / below zero
         ref = pair['ref'] * np.float32(scale)
         pair = fz.make_pair(run.work, g, rng, bands=nbands, src=pair['src'], ref=ref, smask=pair['smask'], tag='e')
-        kw = dict(model=model, kernel_shape=(3, 3), max_block_mem=mbm, param=False)
+        # every other group also writes the parameter image: it is float32 / NaN whatever the corrected image's profile says (C14: it holds
+        # the parameters), so it must be identical across output profiles
+        with_param = k % 2 == 0
+        kw = dict(model=model, kernel_shape=(3, 3), max_block_mem=mbm, param=with_param)
         base = fz.fuse(pair['src_fn'], pair['ref_fn'], run.work / 'f32.tif', out_profile=dict(dtype='float32', nodata=NAN), **kw)
         fa, fm = base['corr']['array'], base['corr']['mask']
         for cfg in rng.sample(configs, run.scale(7, 14)):
@@ -128,7 +131,7 @@ def body(run):
             desc = dict(geom=g.describe(), model=model, ref_scale=scale, bands=nbands, out_profile={k2: (None if v is None else v) for k2, v in prof.items()},
                         blocks=nblk)
             try:
-                res = fz.fuse(pair['src_fn'], pair['ref_fn'], out_fn, out_profile=prof, **kw)
+                res = fz.fuse(pair['src_fn'], pair['ref_fn'], out_fn, out_profile=prof, **dict(kw, param=with_param and cfg['driver'] != 'PNG'))
             except Exception as ex:
                 run.add_violation('fusion failed for a supported output profile', desc, observed=f'{type(ex).__name__}: {str(ex)[:200]}',
                                   signature=dict(kind='dtype-profile-error', driver=cfg['driver'], dtype=dt))
@@ -167,6 +170,9 @@ def body(run):
                     v = np.broadcast_to(fm, fa.shape)
                     if not same[v].all() or (oa[~v] != nodata).any():
                         problems['float output differs'] = True
+            if res.get('param') is not None:
+                if res['param']['dtype'] != 'float32' or not fz.same_arrays(res['param']['array'], base['param']['array']):
+                    problems['parameter image depends on the output profile'] = dict(dtype=res['param']['dtype'], first_diff=fz.first_diff(res['param']['array'], base['param']['array']))
             if problems:
                 run.add_violation('output encoding changes the numeric content', desc, observed=problems,
                                   signature=dict(kind='dtype-e2e', driver=cfg['driver'], dtype=dt, parts=sorted(problems)))
